@@ -145,7 +145,14 @@ def make_resolver(obj: bytes) -> Any:
             if f % 2:
                 h["Location"] = ""
         elif loc == "invalid":
-            h["Location"] = ["http://", "mailto:x", "http:///p"][f % 3]
+            # a target whose join has no scheme or no netloc (checked against the environment's urljoin: "http://" is
+            # relative to an http base, so the form depends on the current URL)
+            from urllib.parse import urlparse as _up
+
+            cand_inv = ["http://", "mailto:x", "http:///p", "https://", "javascript:1"]
+            pick_inv = cand_inv[f % len(cand_inv)]
+            j = _up(urljoin(url, pick_inv))
+            h["Location"] = pick_inv if (not j.scheme or not j.netloc) else "mailto:x"
         else:
             target = POOL[loc]
             cand = [target]
